@@ -31,6 +31,12 @@ type Port struct {
 	// This is used to check if an external command killed by SIGPIPE is caused
 	// by the termination of the reader of the pipe.
 	readerGone *atomic.Bool
+
+	// Set in the port from which a command reads the output of the previous
+	// command of its pipeline. Chan is closed by the writing side when the
+	// previous command finishes, so nothing else may send to it, even after a
+	// redirection like >&0 has made this port the output of a command.
+	pipeReadEnd bool
 }
 
 // ErrPortDoesNotSupportValueOutput is thrown when writing to a port that does
